@@ -368,9 +368,9 @@ def c15(prop, tier, t0):
     bound = 2 if tier == "quick" else 3
     m, cov = engb_run(prop, tier, "c15", bound, budget="40s" if tier == "quick" else "600s")
     cov["explanation"] = ("real DynamicFanOut + ProcessMidiEvents under the controlled scheduler: R-out (2-3 emitters -> relay -> port), R-in/F (port -> relay -> fan-out -> always-attached device B and device A "
-                          "attached/detached at arbitrary moments), F-stalled (A never reads), F-churn (two attachments); channel capacities 0/1/2; oracle on the totally ordered observation trace")
+                          "attached/detached at arbitrary moments), F-stalled (A never reads), F-churn (two attachments), F-ids (every history of attach/detach operations up to a depth, a message after each operation: operation choices only on the default schedule, and a shorter depth with all non-preemptive interleavings); channel capacities 0/1/2; oracle on the totally ordered observation trace")
     return vlib.finish(prop, tier, "model_checking", m, cov, ENGB_ASSUME + [
-        "channel capacities 0-2 instead of 8 so that blocking states are reachable within the bound; 2-4 messages, 2-3 emitters, one device attached/detached once or twice",
+        "channel capacities 0-2 instead of 8 so that blocking states are reachable within the bound; 2-4 messages, 2-3 emitters, one device attached/detached once or twice; F-ids: up to 3 (thorough 4) devices attached, histories of 6 (8) operations",
         "relay shutdown (context cancellation) is applied only after quiescence",
     ], t0)
 
@@ -408,12 +408,13 @@ def c16(prop, tier, t0):
     bound = 2 if tier == "quick" else 3
     m, cov = engb_run(prop, tier, "c16", bound, budget="45s" if tier == "quick" else "900s")
     cov["explanation"] = ("real device package (events.go, device.go, open_rgb.go instrumented incl. data-access annotations) + fake OpenRGB under the controlled scheduler: event feeder, MIDI-input feeder, output drainer, "
-                          "ProcessEvents with its LED and MIDI-input goroutines; OpenRGB absent / connected (virtual time), MIDI input nil / live, two devices on one output. Oracle per schedule: ProcessEvents returns after the stream "
+                          "ProcessEvents with its LED and MIDI-input goroutines; OpenRGB absent / connected (virtual time) / failing (up to 2, thorough 3, failing calls or the server gone for good, at every call: explicit environment choices), MIDI input nil / live, two devices on one output. Oracle per schedule: ProcessEvents returns after the stream "
                           "ends and nothing it started stays blocked, no happens-before race on any mutable Device field, last LED frame all red, each device's output equals its output when run alone.")
     return vlib.finish(prop, tier, "model_checking", m, cov, ENGB_ASSUME + [
         "race detection is a vector-clock happens-before check over annotated accesses to mutable Device fields, with edges only from the program's own synchronisation; exhaustive over the explored schedules",
         "timers and sleeps are virtual: each sleep/timer label may fire 'early' once (branching), afterwards only when nothing else can run; LED refresh iterations are therefore explored at arbitrary positions a bounded number of times",
-        "a stalled OpenRGB server (blocking socket) and the Status()/State() readers of cmd/hidi/cli.go are not modelled",
+        "a stalled OpenRGB server (blocking socket) and the Status()/State() readers of cmd/hidi/cli.go are not modelled; a failing server (error returns) is",
+        "when only sleeping threads can run, the least recently run one is the default and another may overtake it only while its branching budget lasts (otherwise two polling loops unroll each other without end)",
     ], t0)
 
 
